@@ -2,8 +2,10 @@
 //! client and server under the deterministic executor (`crate::det`).
 pub mod c01;
 pub mod c07;
+pub mod c08e2e;
 pub mod c09;
 pub mod c12;
 pub mod c17;
+pub mod c19e2e;
 pub mod common;
 pub mod tlsfix;
